@@ -119,7 +119,9 @@ int main(int argc, char** argv) {
             if (st != CARQUET_OK) v_viol("thrift:write-page-header-failed", "case=%lld status=%d", (long long)n, st);
             else { size_t extra = vrng_below(&R, 40); uint8_t* exact = v_exact(buf.size + extra); memcpy(exact, buf.data, buf.size); vrng_bytes(&R, exact + buf.size, extra); parquet_page_header_t h2; memset(&h2, 0, sizeof h2); size_t used = 0; st = parquet_parse_page_header(exact, buf.size + extra, &h2, &used, &err);
                 if (st != CARQUET_OK) v_viol("thrift:own-page-header-rejected", "case=%lld status=%d %s", (long long)n, st, err.message);
-                else { if (used != buf.size) v_viol("thrift:page-header-bytes-read-differs", "case=%lld produced=%zu consumed=%zu type=%d", (long long)n, buf.size, used, (int)h.type); sb_t p2 = {0}; dump_ph(&p2, &h2, 0); if (p1.n != p2.n || memcmp(p1.p, p2.p, p1.n)) v_viol("thrift:page-header-roundtrip-differs", "case=%lld type=%d", (long long)n, (int)h.type); free(p2.p); }
+                else { if (used != buf.size) v_viol("thrift:page-header-bytes-read-differs", "case=%lld produced=%zu consumed=%zu type=%d", (long long)n, buf.size, used, (int)h.type); sb_t p2 = {0}; dump_ph(&p2, &h2, 0); if (p1.n != p2.n || memcmp(p1.p, p2.p, p1.n)) v_viol("thrift:page-header-roundtrip-differs", "case=%lld type=%d", (long long)n, (int)h.type);
+                    else { /* everything else equal: does the content of DataPageHeader.statistics (which carquet serialises) come back too? */ sb_t f1 = {0}, f2 = {0}; dump_ph(&f1, &h, 1); dump_ph(&f2, &h2, 1); if (f1.n != f2.n || memcmp(f1.p, f2.p, f1.n)) v_viol("thrift:page-header-roundtrip-loses-statistics-content", "case=%lld type=%d: written [%.200s] parsed back [%.200s]", (long long)n, (int)h.type, f1.p ? f1.p : "", f2.p ? f2.p : ""); else v_count("page_header_roundtrips_with_full_statistics_equal"); free(f1.p); free(f2.p); }
+                    free(p2.p); }
                 /* the dump handed to the reference decoder also lists the statistics content carquet serialised */
                 { sb_t pf = {0}; dump_ph(&pf, &h, 1); put_file(dir, n, "ph.txt", pf.p ? pf.p : "", pf.n); free(pf.p); }
                 put_file(dir, n, "ph.bin", buf.data, buf.size); free(exact); v_count("page_header_roundtrips"); }
